@@ -1,6 +1,7 @@
 package main
 
 import (
+	"sync"
 	"go/ast"
 	"go/parser"
 	"go/token"
@@ -204,4 +205,12 @@ func (fc *FnCtx) inlineCall(ci calleeInfo, in ssa.Instruction, st *State, resT t
 		tup.Fs = append(tup.Fs, fc.nameVal("inl", fc.mergeVals(vs, conds)))
 	}
 	return tup
+}
+
+var axMu sync.Mutex
+
+func (eng *Engine) markAxiom(name, text string) {
+	axMu.Lock()
+	eng.usedAxioms[name] = text
+	axMu.Unlock()
 }
